@@ -11,7 +11,7 @@ from pyabv.gen import corpus
 from pyabv.gen.inputs import gen_env
 from pyabv.gen.programs import POOL_HOSTILE, POOL_KWPREFIX, POOL_PLAIN, POOL_SHAPE, Profile, ProgGen, Renderer
 from pyabv.impl import impl
-from pyabv.props.common import Inferred, choose_inputs, is_member, ref_parse, selection, self_check
+from pyabv.props.common import POISON_TEXTS, poison, Inferred, choose_inputs, is_member, ref_parse, selection, self_check
 from pyabv.ref.parse import And, Cmp, Group, Id, If, Lit, Not, Or, Program, Ret, Tup
 
 RULE = (
@@ -220,6 +220,13 @@ def run(ctx):
         if ctx.mine(idx):
             exercise(ctx, im, text, None, 40, "documented", nontrivial="README" in name or "docs" in name)
             ctx.seen("documented_programs", name)
+    # after a rejected text: nothing of the failure may leak into the next compilation
+    for pz in POISON_TEXTS:
+        for text in list(corpus.DOCUMENTED.values())[:2] + corpus.SEEDS[:6]:
+            idx += 1
+            if ctx.mine(idx):
+                poison(im, pz)
+                exercise(ctx, im, text, None, 4, "after-rejected-text", nontrivial=True)
     # identifier positions
     for pool_name, pool in (("plain", POOL_PLAIN), ("kwprefix", POOL_KWPREFIX), ("shape", POOL_SHAPE), ("hostile", POOL_HOSTILE)):
         for x in pool:
